@@ -239,6 +239,8 @@ class SingleDeletionSweep(Contract):
             a = c.add_data({"a": {"values": np.arange(4.0)}})
             b = c.add_data({"b": {"values": np.array([1, 2, 1, 2], dtype="uint32"), "type": "referenced", "value_map": {1: "x", 2: "y"}}})
             c.add_data_to_group([a, b], "grp")
+            c.add_data_to_group([a], "grp-a")
+            c.add_data_to_group([b], "grp-b")
             c.add_data({"flag": {"values": np.array([True, False, True, True]), "type": "boolean"}})
             # objects whose own (optional) attributes decide how many entries their data have
             from geoh5py.objects import BlockModel, Grid2D, Octree, Surface
@@ -296,6 +298,10 @@ class SingleDeletionSweep(Contract):
                             targets.append({"kind": "member", "entity": name, "member": sub})
                     if "PropertyGroups" in node:
                         targets.append({"kind": "member", "entity": name, "member": "PropertyGroups"})
+                        # every attribute of every property-group block: the block describes that one group only
+                        for gi, gkey in enumerate(sorted(node["PropertyGroups"])):
+                            for k in node["PropertyGroups"][gkey].attrs:
+                                always.append({"kind": "pg-attr", "entity": name, "group": gi, "attr": k})
                     t = node["Type"]
                     for k in t.attrs:
                         if k not in ("ID", "Name", "Primitive type"):
@@ -332,7 +338,13 @@ class SingleDeletionSweep(Contract):
                 else:
                     node, key = self._find(f, case["entity"])
                     owner_uid = key.strip("{}")
-                    if case["kind"] == "attr":
+                    pg_name = None
+                    if case["kind"] == "pg-attr":
+                        blk = node["PropertyGroups"][sorted(node["PropertyGroups"])[case["group"]]]
+                        pg_name = blk.attrs.get("Group Name")
+                        pg_name = pg_name.decode() if isinstance(pg_name, bytes) else pg_name
+                        del blk.attrs[case["attr"]]
+                    elif case["kind"] == "attr":
                         del node.attrs[case["attr"]]
                     elif case["kind"] == "member":
                         del node[case["member"]]
@@ -348,13 +360,28 @@ class SingleDeletionSweep(Contract):
                         del node.attrs[case["attr"]]
                     else:
                         del node["Type"][case["member"]]
-            mandatory = case["kind"].startswith("mandatory")
+            mandatory = case["kind"].startswith("mandatory") or case["kind"] == "pg-attr"
             try:
                 got = self._snapshot(path)
             except Exception as exc:
                 if mandatory:
                     return None  # an error is an allowed answer to a missing mandatory item
                 return f"file no longer opens after deleting optional item {case}: {type(exc).__name__}: {exc}"
+            if case["kind"] == "pg-attr":
+                # the block describes one property group: every entity, and every *other* group of the same object, is as before
+                for uid, desc in ref.items():
+                    if uid not in got:
+                        return f"deleting attribute '{case['attr']}' of the block of property group '{pg_name}' lost {desc['class']} '{desc['name']}'"
+                    for k, v in desc.items():
+                        if k == "property_groups":
+                            for gname, members in v.items():
+                                if uid == owner_uid and gname == pg_name:
+                                    continue
+                                if got[uid].get(k, {}).get(gname) != members:
+                                    return f"deleting attribute '{case['attr']}' of the block of property group '{pg_name}' changed group '{gname}' of {desc['class']} '{desc['name']}': {members} -> {got[uid].get(k, {}).get(gname)}"
+                        elif got[uid].get(k) != v:
+                            return f"deleting attribute '{case['attr']}' of the block of property group '{pg_name}' altered {desc['class']} '{desc['name']}'.{k}: {v!r} -> {got[uid].get(k)!r}"
+                return None
             if mandatory:
                 # what the item describes: the entity (or all entities of its type) and their descendants
                 described = {owner_uid}
